@@ -1679,6 +1679,7 @@ error:
 		free(opttitle);
 	if (comment)
 		free(comment);
+	cfg_free_value(&funcopt);
 
 	return STATE_ERROR;
 }
